@@ -61,6 +61,7 @@ func H_C07_Step() {
 		vCover("c07.quiet")
 	}
 	vAssert(f.vIsMember(vPeerA) == memPost, "c07.members-agrees")
+	vAssert(f.ev.unlocked == 0, "c07.callbacks-under-node-lock")
 }
 
 // C07: suspicion, timer expiry (fresh and stale) and reaping emit exactly the right events.
@@ -93,5 +94,6 @@ func H_C07_TimerReset() {
 	vAssert(len(f.ev.log) == 1, "c07.reset-emits-nothing")
 	vAssert(m.NumMembers() == preN, "c07.reset-keeps-members")
 	vAssert(f.vIsMember(vSelf) && f.vIsMember(vPeerB), "c07.reset-keeps-live")
+	vAssert(f.ev.unlocked == 0, "c07.timer-callbacks-under-node-lock")
 	vCover("c07.timer-reset")
 }
